@@ -82,7 +82,7 @@ func (n *c26net) ticks(from, to time.Duration, permissive bool) int {
 func TestVerifC26(t *testing.T) {
 	depth := mc.Pick(3, 4)
 	maxDev := mc.Pick(2, 3)
-	nOps := mc.Pick(7, 9) // the quick tier leaves out the second peer's flag and the keep-all prune
+	nOps := mc.Pick(8, 9) // the quick tier leaves out the keep-all prune
 	// the package's own TestMain shortens the resolution for its wall-clock tests; under the
 	// virtual clock the shipped value is used
 	sequencerResolution = time.Second
@@ -95,7 +95,7 @@ func TestVerifC26(t *testing.T) {
 	}
 	mc.Run(t, mc.Config{ID: "C26", Name: "C26-blocker", MaxDev: maxDev, ShardLevels: 3, Params: map[string]interface{}{
 		"driver_ops": depth, "deviation_bound": maxDev, "flag_timeout": "3s", "wakeup": "1s", "resolution": "1s", "timer_horizon": 60,
-		"alphabet":  "Flag(p) Flag(q) Unflag(p) PruneUnseen({q}) PruneUnseen({p,q}) ToggleNetwork Sleep(1s) Sleep(4s)",
+		"alphabet":  "Flag(p) Flag(q) Unflag(p) PruneUnseen({q}) PruneUnseen({p,q}) ToggleNetwork Sleep(1s) Sleep(4s); plus at most one racer thread (Unflag(p)|Unflag(q)|PruneUnseen({})) started while a Blocklist call is in progress",
 		"deviations": "a timer firing while the driver could run; a non-default order of timers due at the same instant; a preemption"}},
 		func(x *mc.X) {
 			mon := [2]*c26mon{{}, {}}
@@ -105,6 +105,7 @@ func TestVerifC26(t *testing.T) {
 			net := &c26net{}
 			vnow := func() time.Duration { return vsched.Current().Elapsed() }
 			violation, vkey := "", ""
+			racers := 0
 			lister.onList = func(a boson.Address) {
 				i := idx(a)
 				m := mon[i]
@@ -123,6 +124,28 @@ func TestVerifC26(t *testing.T) {
 				m.flagged = false
 				m.blocks++
 				x.Tag("blocklisted")
+				// the blocklister is another component (I/O): while this call is in progress another
+				// goroutine may run a Blocker operation to completion, if the Blocker lets it
+				if racers < 1 {
+					if r := x.Deviate(4); r > 0 {
+						racers++
+						s := vsched.Current()
+						s.Go("racer", func() {
+							switch r {
+							case 1, 2:
+								b.Unflag(peers[r-1])
+								mon[r-1].flagged = false
+								x.Logf("  racer: Unflag(%d) returned", r-1)
+							case 3:
+								b.PruneUnseen(nil)
+								mon[0].flagged, mon[1].flagged = false, false
+								x.Logf("  racer: PruneUnseen({}) returned")
+							}
+						})
+						s.Quiesce()
+						x.Tag("racer-during-blocklist")
+					}
+				}
 			}
 			verdict := vsched.Run(x, vsched.Options{MaxSteps: 20000, MaxTimers: 60, DelayBounded: true, Trace: mc.EnvInt("VERIF_TRACE", 0) == 1}, func(s *vsched.S) {
 				b = New(lister, 3*time.Second, time.Minute, time.Second, nil, logging.New(io.Discard, 0))
